@@ -445,7 +445,7 @@ def check_print_arg_width(ctx, rule):
             # snprintf(out, len, fmt, data)  /  __builtin___snprintf_chk(out, len, flag, objsize, fmt, data)
             got.append(a[-1])
             return [(INT(3), {})]
-        ex = absint.Explorer(prog, effects=eff, loop_bound=4,
+        ex = absint.Explorer(prog, effects=eff, loop_bound=12,
                              summaries={"memcpy": s_memcpy, "__builtin___memcpy_chk": s_memcpy, "__builtin_memcpy": s_memcpy,
                                         "snprintf": s_snprintf, "__builtin___snprintf_chk": s_snprintf})
         store = {DBG: INT(0), ("ARG", F("ev_arg", "type")): INT(tv), ("ARG", F("ev_arg", "offset")): INT(OFF),
